@@ -69,7 +69,7 @@ fn generate_enum_parser(typename: &str, enumitems: &[EnumItem]) -> TokenStream {
                 match &*enumname {
                     #(#match_branches)*
                     _ => Err(ParserError::InvalidEnumValue{
-                        filename: parser.filenames[context.fileid].to_string(),
+                        filename: parser.filenames[parser.last_token_fileid].to_string(),
                         error_line: parser.last_token_position,
                         enumtxt: enumname,
                         block: context.element.to_owned(),
@@ -541,7 +541,7 @@ fn generate_taggeditem_match_arms(
                 multiplicity_check.extend(quote! {
                     if #itemname.len() == 0 {
                         parser.error_or_log(ParserError::InvalidMultiplicityNotPresent {
-                            filename: parser.filenames[context.fileid].to_string(),
+                            filename: parser.filenames[parser.last_token_fileid].to_string(),
                             error_line: parser.last_token_position,
                             tag: #tag_string.to_string(),
                             block: context.element.clone(),
@@ -566,7 +566,7 @@ fn generate_taggeditem_match_arms(
                         value
                     } else {
                         return Err(ParserError::InvalidMultiplicityNotPresent {
-                            filename: parser.filenames[context.fileid].to_string(),
+                            filename: parser.filenames[parser.last_token_fileid].to_string(),
                             error_line: parser.last_token_position,
                             tag: #tag_string.to_string(),
                             block: context.element.clone(),
